@@ -10,6 +10,7 @@ package agent
 import (
 	"context"
 	"encoding/binary"
+	"os"
 	"sort"
 	"sync"
 	"time"
@@ -37,6 +38,7 @@ type VerifC01Cbd struct {
 	ID      int64
 	Time    uint32
 	HasData bool
+	RawLen  int // size of the serialized bucket before framing (0 when unknown)
 	data    []byte
 }
 
@@ -84,14 +86,8 @@ func (v *VerifC01Agent) Close() {
 // MakeCbd frames a serialized SourceBucket3 the way preProcess does.
 func VerifC01MakeCbd(t uint32, sb *tlstatshouse.SourceBucket3) VerifC01Cbd {
 	raw := sb.WriteTL1Boxed(nil)
-	// the "does not compress" form of compress.CompressAndFrame (original size, then the bytes as they are): its length
-	// does not depend on which byte runs lz4 happens to find in the timestamp, so every generated second has one size
-	data := binary.LittleEndian.AppendUint32(nil, uint32(len(raw)))
-	data = append(data, raw...)
-	if o, d, err := compress.DeFrame(data); err != nil || int(o) != len(d) {
-		panic("verif: stored frame is not what compress.Decompress takes as uncompressed")
-	}
-	return VerifC01Cbd{Time: t, HasData: true, data: data}
+	// exactly what preProcess does: the real compress.CompressAndFrame decides between the lz4 and the stored form
+	return VerifC01Cbd{Time: t, HasData: true, data: compress.CompressAndFrame(raw), RawLen: len(raw)}
 }
 
 // SendToSenders = real sendToSenders (nobody reads BucketsToSend here, so this is its "channel full" path).
@@ -185,6 +181,9 @@ func (v *VerifC01Agent) SetDiskOk(ok bool) {
 
 func (c VerifC01Cbd) Len() int { return len(c.data) }
 
+// RawBytes: the serialized bucket when the frame is in the stored form (Len() == 4+RawLen).
+func (c VerifC01Cbd) RawBytes() []byte { return c.data[4:] }
+
 // StartHistoric starts the REAL consumers of the historic queue (goSendHistoric x n, goEraseHistoric) and a flusher
 // that calls the real flushBuckets(time.Now()) every 100 ms as goFlusher does; flushed (empty) buckets are drained.
 func (v *VerifC01Agent) StartHistoric(ctx context.Context, senders int) {
@@ -251,6 +250,41 @@ func (v *VerifC01Agent) Known() (ids []int64, times []uint32) {
 		times = append(times, d.knownBuckets[id].time)
 	}
 	return ids, times
+}
+
+// Unread = seconds of live records the disk cache has not handed out yet (rest of the tail file being read + the waiting
+// tail files), found by the oracle's own walk over the record headers (magic, time, body size, crc).
+func (v *VerifC01Agent) Unread() (times []uint32) {
+	if v.A.diskBucketCache == nil {
+		return nil
+	}
+	d := v.A.diskBucketCache.shards[0]
+	d.mu.Lock()
+	defer d.mu.Unlock()
+	scan := func(name string, from int64) {
+		b, err := os.ReadFile(name)
+		if err != nil {
+			return
+		}
+		for pos := from; pos+headerSize <= int64(len(b)); {
+			magic := binary.LittleEndian.Uint32(b[pos:])
+			size := int64(binary.LittleEndian.Uint64(b[pos+8:]))
+			if size < 0 || pos+headerSize+size > int64(len(b)) || (magic != magicGoodBucket && magic != magicDeletedBucket && magic != magicDeletedTorn) {
+				return
+			}
+			if magic == magicGoodBucket {
+				times = append(times, binary.LittleEndian.Uint32(b[pos+4:]))
+			}
+			pos += headerSize + size
+		}
+	}
+	if d.readingFileTail != nil {
+		scan(d.readingFileTail.name, d.readingFileTail.nextPos)
+	}
+	for _, w := range d.waitingFilesTail {
+		scan(w.name, 0)
+	}
+	return times
 }
 
 func (v *VerifC01Agent) OutOfWindowDropped() int64 { return v.shard.HistoricOutOfWindowDropped.Load() }
